@@ -240,7 +240,13 @@ def g_uid(rng, n=None):
 def g_name(rng, n=None, lo=0, hi=16):
     if n is None:
         n = rng.choice([lo, hi, rng.randint(lo, hi)])
-    return ''.join(rng.choice('ABCDEFGHIJKLMNOPQRSTUVWXYZ_0123456789') for _ in range(n)).encode()
+    name = ''.join(rng.choice('ABCDEFGHIJKLMNOPQRSTUVWXYZ_0123456789') for _ in range(n))
+    r = rng.random()
+    if n >= 2 and r < 0.3:
+        # spaces: trailing (AE titles padded with 20H as PS3.8 prescribes), leading, inner
+        k = rng.randint(1, n - 1)
+        name = {0: name[:n - k] + ' ' * k, 1: ' ' * k + name[k:], 2: name[:k] + ' ' + name[k + 1:]}[int(r * 10) % 3]
+    return name.encode()
 
 
 def g_utf8(rng, n=None):
